@@ -73,10 +73,41 @@ fn call_strategy() -> BoxedStrategy<Call> {
     ];
     (0u8..NFUNCS, text, threshold_strategy(), 0u8..4, lang_strategy()).prop_map(|(f, (lang, text), th_bits, cross, other)| Call { f, lang: if cross == 0 { other } else { lang }, text, th_bits }).boxed()
 }
+/// two (or three) almost identical long one-word numbers, validated back to back: same length and a long
+/// common prefix (what a memo keyed on a truncated or hashed form of the last word would confuse)
+fn near_duplicates() -> BoxedStrategy<Vec<Call>> {
+    (0usize..7, num_strategy(1_000_000_000_000), 0usize..6, 0u8..4).prop_map(|(li, n, d, f)| {
+        let l = LANGS[li];
+        // one-word styles: de style 0, nl style 1, it style 0; other languages: canonical
+        let bytes: &[u8] = match l { "nl" => &[64, 255, 0, 0, 0, 0], "de" => &[0, 0, 0, 0], _ => &[0] };
+        let base = n - n % 100 + 77;
+        let delta = [20u64, 10, 1, 2, 100_000, 1_000][d];
+        let mut v = vec![];
+        for m in [base, base + delta, base, base + delta] {
+            let text = spell::cardinal(l, m % 1_000_000_000_000, &mut Bytes::new(bytes)).join(" ");
+            v.push(Call { f: if f == 0 { 1 } else { 0 }, lang: l.to_string(), text, th_bits: 0 });
+        }
+        v
+    }).boxed()
+}
 fn history_strategy(maxlen: usize) -> BoxedStrategy<History> {
     // a few distinct calls, repeated and interleaved, so that a call is seen after other calls
     (proptest::collection::vec(call_strategy(), 2..12), proptest::collection::vec(any::<u16>(), 4..maxlen))
-        .prop_map(|(pool, order)| order.into_iter().map(|i| pool[idx(i, pool.len())].clone()).collect())
+        .prop_map(|(pool, order)| order.into_iter().map(|i| pool[idx(i, pool.len())].clone()).collect::<History>())
+        .prop_flat_map(|h| {
+            let h2 = h.clone();
+            prop_oneof![
+                3 => Just(h),
+                1 => (near_duplicates(), any::<u16>()).prop_map(move |(nd, at)| {
+                    let mut h = h2.clone();
+                    let k = idx(at, h.len() + 1);
+                    for (j, c) in nd.into_iter().enumerate() {
+                        h.insert(k + j, c);
+                    }
+                    h
+                }),
+            ]
+        })
         .boxed()
 }
 
@@ -185,7 +216,7 @@ impl Property for C14 {
         "C14"
     }
     fn rule(&self) -> String {
-        "History independence (generated, shrinkable): histories of 4..300 public calls (text2digits, replace_numbers_in_text, find_numbers on annotated tokens, find_numbers_iter drained, find_numbers_iter abandoned after its first or second result, replace_numbers_in_stream, exec_group, basic_annotate, get_interpreter_for+rewrite) drawn from a pool of 2..12 distinct calls over all seven languages, clean/dirty sentences and speller phrases, any threshold, repeated and interleaved on ONE set of shared interpreters; every result must equal the result of the same call on a freshly constructed interpreter. Sharing across threads (whole-run procedures): 16 threads share one &Language per language and replay generated call lists concurrently, every result must equal the single-threaded result on a fresh interpreter; cold start: 300 (thorough 3000) rounds in which 8 threads released by a barrier make the very first calls on a freshly built interpreter; hot loop: 16 threads hammer 8 long compound numbers per language on one interpreter. Type level: a separate crate asserts Language and the seven concrete types are Send + Sync + 'static (./check C14 builds it first). Silence: the harness re-executes itself as a child with stdout and stderr piped; the child runs a workload through every public function that covers the spellings of all n < 2000, all scale words, ordinals < 200 in every inflection, decimals, every vocabulary word, and 20 000 generated calls; both pipes must stay empty. Non-trivial = distinct histories with >= 2 languages and a repeated call after a different call.".into()
+        "History independence (generated, shrinkable): histories of 4..300 public calls (text2digits, replace_numbers_in_text, find_numbers on annotated tokens, find_numbers_iter drained, find_numbers_iter abandoned after its first or second result, replace_numbers_in_stream, exec_group, basic_annotate, get_interpreter_for+rewrite) drawn from a pool of 2..12 distinct calls over all seven languages, clean/dirty sentences and speller phrases, any threshold, repeated and interleaved, one history in four with a run of near-duplicate long one-word numbers (same length, long common prefix) inserted, on ONE set of shared interpreters; every result must equal the result of the same call on a freshly constructed interpreter. Sharing across threads (whole-run procedures): 16 threads share one &Language per language and replay generated call lists concurrently, every result must equal the single-threaded result on a fresh interpreter; cold start: 300 (thorough 3000) rounds in which 8 threads released by a barrier make the very first calls on a freshly built interpreter; hot loop: 16 threads hammer 8 long compound numbers per language on one interpreter; oversubscription: 384 (thorough 768) threads released by a barrier, most of them preempted in mid-call. Type level: a separate crate asserts Language and the seven concrete types are Send + Sync + 'static (./check C14 builds it first). Silence: the harness re-executes itself as a child with stdout and stderr piped; the child runs a workload through every public function that covers the spellings of all n < 2000, all scale words, ordinals < 200 in every inflection, decimals, every vocabulary word, and 20 000 generated calls; both pipes must stay empty. Non-trivial = distinct histories with >= 2 languages and a repeated call after a different call.".into()
     }
     fn assumptions(&self) -> Vec<String> {
         vec![
@@ -315,6 +346,50 @@ impl Property for C14 {
                 }
             }
             obs.label("hot-loop(16 threads, 8 long compounds per language)");
+        }
+        // --- oversubscription: hundreds of threads, most of them preempted in the middle of a call ----------
+        // (process-wide counters / limits on calls in flight only show up with far more threads than cores)
+        {
+            let nthreads = tier.pick(384usize, 768usize);
+            let iters = tier.pick(300usize, 1500usize);
+            let texts: Vec<(usize, String, String)> = LANGS
+                .iter()
+                .enumerate()
+                .map(|(li, l)| {
+                    let t = spell::cardinal(l, 654_321, &mut Canon).join(" ");
+                    let want = format!("{:?}", text2digits(&t, &new_lang(l)));
+                    (li, t, want)
+                })
+                .collect();
+            let bad: std::sync::Mutex<Option<String>> = std::sync::Mutex::new(None);
+            let barrier = std::sync::Barrier::new(nthreads);
+            std::thread::scope(|s| {
+                for th in 0..nthreads {
+                    let (texts, bad, shared, barrier) = (&texts, &bad, &shared, &barrier);
+                    std::thread::Builder::new()
+                        .stack_size(256 << 10)
+                        .spawn_scoped(s, move || {
+                            barrier.wait();
+                            for i in 0..iters {
+                                let (li, t, want) = &texts[(i + th) % texts.len()];
+                                let got = std::panic::catch_unwind(std::panic::AssertUnwindSafe(|| format!("{:?}", text2digits(t, &shared[*li])))).unwrap_or_else(|_| "<panicked>".into());
+                                if &got != want {
+                                    let mut b = bad.lock().unwrap();
+                                    if b.is_none() {
+                                        *b = Some(format!("{} threads sharing the interpreters: text2digits({:?}) = {}, single-threaded {}", nthreads, t, got, want));
+                                    }
+                                    return;
+                                }
+                            }
+                        })
+                        .unwrap();
+                }
+            });
+            obs.evaluations += (nthreads * iters) as u64;
+            obs.label("oversubscription(384+ threads)");
+            if let Some(m) = bad.into_inner().unwrap() {
+                return Err((m, json!([{"f": 0, "lang": "nl", "text": "oversubscription", "th_bits": 0}])));
+            }
         }
         // --- silence -----------------------------------------------------------------------------
         let total_items = silent_items(seed).len();
